@@ -98,17 +98,25 @@ Theorem transfer_atomic_registry : forall d s s' h,
 Proof. exact transfer_registry_atomic_p. Qed.
 Print Assumptions transfer_atomic_registry.
 
-(* File side, PARTIAL: under the exact guard "if the transferred slot is registered it has a datastore record" (true for
-   every slot that was never unstored).  Missing for full strength: FileDatastore.transfer_from copies with overwrite=True
-   whenever the target has no RECORD, so Transfer is not an `additive` operation of the nested theorems above. *)
+(* File side, at FULL strength relative to the datastore invariant: the only premise besides no_orphan is the clause of DI for the
+   transferred slot -- "if the slot has an artifact it has a datastore record" -- which holds in every state reached by committed
+   operations (datastore_invariant_reachable) and, unlike the guard of the first version, also after an unstore. *)
+Theorem transfer_atomic_files : forall d s s' h,
+  no_orphan s -> (fget d (fs s) <> None -> mem d (recs (cur s)) = true) ->
+  exec shipped (POp (Transfer d)) s = (s', Raised h) -> cfault s' = false ->
+  feq (fs s') (fs s) /\ feq (ext s') (ext s) /\ ptr s' = ptr s /\ no_orphan s'.
+Proof. exact transfer_files_atomic_p. Qed.
+Print Assumptions transfer_atomic_files.
+
+(* the first version (guard: a registered slot has a record) is a corollary; name kept *)
 Theorem transfer_atomic_files_partial : forall d s s' h,
   no_orphan s -> (mem d (ds (cur s)) = true -> mem d (recs (cur s)) = true) ->
   exec shipped (POp (Transfer d)) s = (s', Raised h) -> cfault s' = false ->
   feq (fs s') (fs s) /\ feq (ext s') (ext s) /\ ptr s' = ptr s /\ no_orphan s'.
-Proof. exact transfer_files_atomic_p. Qed.
+Proof. exact transfer_files_atomic_old_p. Qed.
 Print Assumptions transfer_atomic_files_partial.
 
-(* the guard is necessary on the model: slot registered by an earlier transfer, artifact present, record missing (the
+(* the invariant clause is necessary on the model: slot registered by an earlier transfer, artifact present, record missing (the
    state K-C07-delete-error-swallowed leaves behind after an unstore) -- a failing re-transfer overwrites the artifact
    and its rollback deletes it.  Needs two faults on the implementation; not replayed, not a known finding. *)
 Theorem transfer_atomic_files_guard_necessary :
@@ -123,30 +131,54 @@ Theorem import_atomic_registry : forall d s s' h,
 Proof. exact import_registry_atomic_p. Qed.
 Print Assumptions import_atomic_registry.
 
-(* File side, PARTIAL: when the imported slot has no artifact yet.  Missing for full strength: exactly the refutation below. *)
+(* File side, FULL strength since /repo 2da36a1 (FileDatastore refuses the ingest of a dataset it already holds BEFORE any file is
+   transferred; two SELECTs = one new boundary inside the datastore transaction, before the undo registration): the guard "the
+   imported slot has no artifact yet" is gone; what is left is the same clause of the datastore invariant as for transfer. *)
+Theorem import_atomic_files : forall d s s' h,
+  no_orphan s -> (fget d (fs s) <> None -> mem d (recs (cur s)) = true) ->
+  exec shipped (POp (ImportDs d)) s = (s', Raised h) -> cfault s' = false ->
+  feq (fs s') (fs s) /\ feq (ext s') (ext s) /\ ptr s' = ptr s /\ no_orphan s'.
+Proof. exact import_files_atomic_p. Qed.
+Print Assumptions import_atomic_files.
+
+(* the guarded first version is a corollary; name kept *)
 Theorem import_atomic_files_partial : forall d s s' h,
   no_orphan s -> fget d (fs s) = None ->
   exec shipped (POp (ImportDs d)) s = (s', Raised h) -> cfault s' = false ->
   feq (fs s') (fs s) /\ feq (ext s') (ext s) /\ ptr s' = ptr s /\ no_orphan s'.
-Proof. exact import_files_atomic_p. Qed.
+Proof. exact import_files_atomic_old_p. Qed.
 Print Assumptions import_atomic_files_partial.
 
-(* additive_op_atomic is FALSE for import_ on the faithful model and on the implementation -- WITHOUT any injected fault
-   (known finding K-C07-reimport-deletes-artifact): importing a dataset that is already stored (same dataset id, e.g. the
-   same export file twice) passes the registry (no-op), FileDatastore.ingest overwrites the artifact and registers the
-   undo, INSERT dataset_location fails, and the rollback DELETES the artifact of the committed dataset. *)
-Theorem import_atomic_refuted_reimport :
+(* the repaired behaviour on the shipped model: re-importing a stored dataset is refused and NOTHING changes -- tables, artifacts
+   and staging area literally equal, no fault involved; also when the program catches the refusal and goes on *)
+Theorem reimport_refused_changes_nothing :
   let '(s', r) := exec shipped (POp (ImportDs 0)) s_imp in
+  fuse s_imp = None /\ r = Raised false /\ cfault s' = false /\ cur s' = cur s_imp /\ fs s' = fs s_imp /\ ext s' = ext s_imp /\
+  fget 0 (fs s') = Some 200.
+Proof. exact reimport_refused_p. Qed.
+Print Assumptions reimport_refused_changes_nothing.
+
+Theorem reimport_caught_changes_nothing :
+  let '(s', r) := exec shipped (PBlock [PTry (POp (ImportDs 0)); POp (Assoc 0)]) s_imp in
+  r = Normal /\ mem 0 (loc (cur s')) = true /\ tags (cur s') = [0] /\ fs s' = fs s_imp /\ fget 0 (fs s') = Some 200.
+Proof. exact reimport_caught_refused_p. Qed.
+Print Assumptions reimport_caught_changes_nothing.
+
+(* reverting 2da36a1 breaks import_atomic_files: on the model variant without the pre-check the re-import passes the registry
+   (no-op), FileDatastore.ingest overwrites the artifact and registers the undo, INSERT dataset_location fails, and the rollback
+   DELETES the artifact of the committed dataset -- without any injected fault (fixed finding F-C07-reimport-deletes-artifact) *)
+Theorem import_atomic_refuted_without_reingest_fix :
+  let '(s', r) := exec nofix_ri (POp (ImportDs 0)) s_imp in
   fuse s_imp = None /\ r = Raised false /\ cfault s' = false /\ cur s' = cur s_imp /\
   mem 0 (loc (cur s_imp)) = true /\ fget 0 (fs s_imp) = Some 200 /\ fget 0 (fs s') = None.
-Proof. exact reimport_deletes_artifact_p. Qed.
-Print Assumptions import_atomic_refuted_reimport.
+Proof. exact reimport_deletes_artifact_nofix_p. Qed.
+Print Assumptions import_atomic_refuted_without_reingest_fix.
 
-Theorem inner_escape_refuted_reimport :
-  let '(s', r) := exec shipped (PBlock [PTry (POp (ImportDs 0)); POp (Assoc 0)]) s_imp in
+Theorem inner_escape_refuted_without_reingest_fix :
+  let '(s', r) := exec nofix_ri (PBlock [PTry (POp (ImportDs 0)); POp (Assoc 0)]) s_imp in
   r = Normal /\ mem 0 (ds (cur s')) = true /\ mem 0 (loc (cur s')) = true /\ tags (cur s') = [0] /\ fget 0 (fs s') = None.
-Proof. exact reimport_caught_p. Qed.
-Print Assumptions inner_escape_refuted_reimport.
+Proof. exact reimport_caught_nofix_p. Qed.
+Print Assumptions inner_escape_refuted_without_reingest_fix.
 
 (* --- the undo-log invariant behind them: an additive program that ends normally inside a datastore transaction has
    pushed onto the current log exactly entries whose replay restores the files *)
